@@ -33,6 +33,7 @@ type cblock struct {
 	pre        map[string]cval // pre-commit content of the open block cache
 	bc         *statecache.BlockCache
 	depth      int
+	lateHash   bool // the block cache was created without a hash; SetBlockHash is called right before the commit
 }
 
 type ctxn struct {
@@ -54,10 +55,11 @@ type cworld struct {
 	perKey   map[string]map[string]bool // key -> block hashes the cache has been given an entry for (commits + memoising lookups)
 	commits  int
 	keyNames []string
+	evicted  map[string]bool // keys whose version map was dropped through StateCache.Remove: no must-hit afterwards
 }
 
 func newWorld(r *rand.Rand, nkeys int, mutable bool) *cworld {
-	w := &cworld{sc: statecache.NewStateCache(), blocks: map[string]*cblock{}, r: r, mutable: mutable, perKey: map[string]map[string]bool{}}
+	w := &cworld{sc: statecache.NewStateCache(), blocks: map[string]*cblock{}, r: r, mutable: mutable, perKey: map[string]map[string]bool{}, evicted: map[string]bool{}}
 	for i := 0; i < nkeys; i++ {
 		w.keyNames = append(w.keyNames, fmt.Sprintf("k%d", i))
 	}
@@ -247,7 +249,7 @@ func (w *cworld) noteEntry(key, hash string) {
 // withinCapacity: every "must hit" assertion is only made an order of magnitude below the cache's capacities
 // (per-key version map 200, link history 2000, keys 100K).
 func (w *cworld) withinCapacity(key string, depth int) bool {
-	return len(w.perKey[key]) < 100 && w.commits < 1000 && depth < 1000
+	return len(w.perKey[key]) < 100 && w.commits < 1000 && depth < 1000 && !w.evicted[key]
 }
 
 // judge compares a lookup result with the model. where names the lookup; mustHit demands a hit.
@@ -308,7 +310,12 @@ func (w *cworld) newBlock(c *fw.Ctx, hash, prev string) *cblock {
 		b.depth = p.depth + 1
 		b.round = p.round + 1
 	}
-	b.bc = statecache.NewBlockCache(w.sc, statecache.Block{Round: b.round, Hash: hash, PrevHash: prev})
+	if w.r.Intn(8) == 0 { // generator-style usage: the hash is only known after the block has been executed
+		b.lateHash = true
+		b.bc = statecache.NewBlockCache(w.sc, statecache.Block{Round: b.round, Hash: "", PrevHash: prev})
+	} else {
+		b.bc = statecache.NewBlockCache(w.sc, statecache.Block{Round: b.round, Hash: hash, PrevHash: prev})
+	}
 	w.blocks[hash] = b
 	w.order = append(w.order, b)
 	c.Tracef("block %s<-%s", hash, prev)
@@ -359,6 +366,10 @@ func (w *cworld) blockSet(c *fw.Ctx, b *cblock, key string) {
 
 func (w *cworld) blockCommit(c *fw.Ctx, b *cblock) {
 	c.Tracef("%s commit", b.hash)
+	if b.lateHash {
+		b.bc.SetBlockHash(b.hash)
+		c.Count("late_block_hashes", 1)
+	}
 	b.bc.Commit()
 	b.committed = true
 	for k, v := range b.pre {
@@ -372,6 +383,21 @@ func (w *cworld) blockCommit(c *fw.Ctx, b *cblock) {
 			t.done = true
 		}
 	}
+}
+
+// recommit executes the same block hash again through a second block cache with different writes and commits it:
+// a block that is already committed must be ignored, the first commit's content stays.
+func (w *cworld) recommit(c *fw.Ctx, b *cblock) {
+	c.Tracef("%s committed a second time (different writes; must be ignored)", b.hash)
+	bc2 := statecache.NewBlockCache(w.sc, statecache.Block{Round: b.round, Hash: b.hash, PrevHash: b.prev})
+	for _, k := range w.keyNames {
+		if w.r.Intn(2) == 0 {
+			_, val := w.newToken(b, k)
+			bc2.Set(k, val)
+		}
+	}
+	bc2.Commit()
+	c.Count("duplicate_commits", 1)
 }
 
 // lookups
